@@ -77,6 +77,7 @@ type Frame struct {
 	entry    *PState
 	names    map[string][]ssa.Value
 	dropped  map[string]bool // invariant conjuncts that cannot be evaluated against this body
+	deferred []*ssa.Defer    // defers registered in the entry block, run at RunDefers
 	loops    map[*ssa.BasicBlock]*loopInfo
 	loopOrd  map[*ssa.BasicBlock]int
 	iterOrd  int
@@ -830,10 +831,22 @@ func (f *Frame) instr(in ssa.Instruction, st *PState) {
 		if callee != nil {
 			name = callee.String()
 		}
-		if !(strings.Contains(name, "sync.") || strings.Contains(name, "handlePanic") || strings.Contains(name, "Unlock")) {
-			ex.vc.Unsupported(fmt.Sprintf("%s: defer %s ignored", f.fn.String(), name))
+		if strings.Contains(name, "sync.") || strings.Contains(name, "handlePanic") || strings.Contains(name, "Unlock") {
+			break
 		}
+		if i.Block().Index == 0 && ex.aim == nil {
+			// registered unconditionally at function entry: executed at every RunDefers (normal returns; a panicking
+			// path simply ends). SSA values are immutable, so evaluating the operands at RunDefers gives the values
+			// they had here.
+			f.deferred = append(f.deferred, i)
+			break
+		}
+		ex.vc.Unsupported(fmt.Sprintf("%s: defer %s ignored", f.fn.String(), name))
 	case *ssa.RunDefers:
+		for k := len(f.deferred) - 1; k >= 0; k-- {
+			d := f.deferred[k]
+			f.callCommon(&d.Call, d, st, d.Call.Signature().Results())
+		}
 	case *ssa.Jump, *ssa.If:
 	case *ssa.Return:
 		var rs []Val
